@@ -3,9 +3,11 @@ package main
 // C38 (no deadlock): lock order, recursive read locks, blocking operations under DB.lock, stop/start pairing.
 
 import (
+	"fmt"
 	"go/ast"
 	"go/token"
 	"go/types"
+	"os"
 	"sort"
 	"strings"
 )
@@ -129,6 +131,28 @@ func ruleR38_3(c *Check) {
 	for name, why := range exc {
 		r.Except(name, why)
 	}
+	if os.Getenv("BVERIF_EXPLORE") != "" {
+		// exploration aid (not part of the verdict): every potentially blocking operation executed
+		// while some lock is held in the function's own body
+		for _, f := range w.Fns {
+			if isCmdPkg(f) || f.Body == nil {
+				continue
+			}
+			f := f
+			f.walk(func(x ast.Node) bool {
+				what, ok := w.blockingOp(f, x)
+				if !ok {
+					return true
+				}
+				for l, mode := range f.HeldAt(x) {
+					if mode > 0 {
+						fmt.Fprintf(os.Stderr, "EXPLORE blocking-under-lock %s %s: %s holding %s(%d)\n", w.Fset.Position(x.Pos()), f.Name, what, w.lockName(l), mode)
+					}
+				}
+				return true
+			})
+		}
+	}
 	for _, f := range w.Fns {
 		if shortPkg(f.Pkg) != "badger" || isCmdPkg(f) {
 			continue
@@ -194,7 +218,176 @@ func ruleR38_5(c *Check) {
 	r.Exists(len(sm.Sites(selClose(w.Field("badger.DB.flushChan")))) == 1, sm, "flushChan closed by stopMemoryFlush", nil, "expected one close(flushChan)")
 }
 
+// R38.6: blocking operations under locks other than DB.lock.
+func ruleR38_6(c *Check) {
+	w := c.W
+	r := c.Rule("R38.6", "E8+E2", 6, "every operation that can block indefinitely while a mutex other than DB.lock is held (in the function's own body; extracted helpers are attributed to their only caller) is one of the triaged sites, and for each of them the party that unblocks it does so without needing that mutex: the receiving side of the channel / the goroutine the closer waits for performs its receive / Done at sites where the mutex is not held and is not itself called with it held",
+		"a goroutine that blocks on a peer while holding a mutex the peer needs in order to make progress is a deadlock under the right interleaving")
+	dbl := types.Object(w.Field("badger.DB.lock"))
+	type triaged struct {
+		why     string
+		service []string               // functions that perform the unblocking action
+		action  func(w *World) Sel     // the unblocking action inside them
+	}
+	recvOn := func(fld string) func(w *World) Sel {
+		return func(w *World) Sel {
+			ch := types.Object(w.Field(fld))
+			return selPred("recv/range "+fld, func(w *World, f *Fn, n ast.Node) bool {
+				switch x := n.(type) {
+				case *ast.UnaryExpr:
+					return x.Op == token.ARROW && chanObj(w, x.X) == ch
+				case *ast.RangeStmt:
+					return chanObj(w, x.X) == ch
+				}
+				return false
+			})
+		}
+	}
+	closerDone := func(w *World) Sel {
+		return selPred("Closer.Done", func(w *World, f *Fn, n ast.Node) bool {
+			call, ok := n.(*ast.CallExpr)
+			if !ok {
+				return false
+			}
+			fn, _ := w.Callee(call).(*types.Func)
+			return fn != nil && fn.Name() == "Done" && fn.Pkg() != nil && fn.Pkg().Path() == "github.com/dgraph-io/ristretto/v2/z"
+		})
+	}
+	table := map[string]triaged{
+		"badger.publisher.publishUpdates|publisher.Mutex|send": {
+			"the subscriber goroutine (DB.Subscribe) receives from sendCh in its select loop and in slurp/drain without the publisher mutex; it takes the mutex only in newSubscriber (before the loop) and in deleteSubscriber (after active=0 and a full drain); one batch per subscriber per call, channel capacity 1000",
+			[]string{"badger.DB.Subscribe"}, recvOn("badger.subscriber.sendCh")},
+		"badger.publisher.cleanSubscribers|publisher.Mutex|wait": {
+			"the goroutine waited for is DB.Subscribe, which answers HasBeenClosed with slurp and c.Done() without calling into the publisher; on its other exits c.Done() precedes deleteSubscriber",
+			[]string{"badger.DB.Subscribe"}, closerDone},
+		"badger.StreamWriter.Write|StreamWriter.writeLock|send": {
+			"the receiver is sortedWriter.handleRequests, which never takes StreamWriter.writeLock",
+			[]string{"badger.sortedWriter.handleRequests"}, recvOn("badger.sortedWriter.reqCh")},
+		"badger.StreamWriter.Write|StreamWriter.writeLock|wait": {
+			"waits for sortedWriter.handleRequests (closer.Done deferred there), which never takes StreamWriter.writeLock",
+			[]string{"badger.sortedWriter.handleRequests"}, closerDone},
+		"badger.StreamWriter.Flush|StreamWriter.writeLock|wait": {
+			"waits for sortedWriter.handleRequests, which never takes StreamWriter.writeLock",
+			[]string{"badger.sortedWriter.handleRequests"}, closerDone},
+		"badger.StreamWriter.Cancel|StreamWriter.writeLock|wait": {
+			"waits for sortedWriter.handleRequests, which never takes StreamWriter.writeLock",
+			[]string{"badger.sortedWriter.handleRequests"}, closerDone},
+	}
+	for key, t := range table {
+		r.Except(key, t.why)
+	}
+	lg := w.buildLockGraph()
+	var k keyer
+	seen := map[string]bool{}
+	n := 0
+	for _, f := range w.Fns {
+		if isCmdPkg(f) || f.Body == nil || shortPkg(f.Pkg) == "pb" || shortPkg(f.Pkg) == "fb" {
+			continue
+		}
+		f := f
+		f.walk(func(x ast.Node) bool {
+			what, ok := w.blockingOp(f, x)
+			if !ok {
+				return true
+			}
+			for l, mode := range f.HeldAt(x) {
+				if mode == 0 || l == dbl {
+					continue
+				}
+				n++
+				kind := "wait"
+				switch x.(type) {
+				case *ast.SendStmt:
+					kind = "send"
+				case *ast.UnaryExpr:
+					kind = "recv"
+				}
+				root := f.Root()
+				// a helper that runs under its caller's lock is attributed to the caller; a function that
+				// takes the lock itself is the site's owner
+				takesItself := false
+				root.walkDeep(func(_ *Fn, m ast.Node) bool {
+					if c, ok := m.(*ast.CallExpr); ok {
+						if op := w.lockOpOf(c); op != nil && op.Acquire && op.Lock == l {
+							takesItself = true
+						}
+					}
+					return true
+				})
+				if cs := w.soleCallSite(root); cs != nil && !takesItself {
+					root = cs.Caller.Root()
+				}
+				key := root.Name + "|" + w.lockName(l) + "|" + kind
+				t, known := table[key]
+				if !known {
+					r.Check(false, f, k.key("blocking operation under a lock is a triaged site", w, x), x, what+" while "+w.lockName(l)+" is held: not one of the triaged sites ("+key+"); whoever unblocks it must be shown not to need that lock")
+					continue
+				}
+				seen[key] = true
+				for _, sname := range t.service {
+					sf := w.F(sname)
+					sites := sf.SitesDeep(t.action(w))
+					r.Check(len(sites) > 0, sf, k.key("unblocking action present in "+sname+" for "+key, w, x), x, sname+" no longer performs the action that unblocks "+what)
+					for _, s := range sites {
+						held := s.SiteFn.HeldAt(s.Site)[l] > 0
+						r.Check(!held, s.SiteFn, k.key("peer acts without the lock the blocked party holds", w, s.Site), s.Site, sname+" holds "+w.lockName(l)+" at the operation that would unblock "+root.Name)
+					}
+					// the servicing function is not entered with the lock held
+					for _, cs := range w.CG().In[sf] {
+						if cs.Async {
+							continue
+						}
+						r.Check(cs.Caller.HeldAt(cs.Node)[l] == 0, cs.Caller, k.key("peer not started under the lock", w, cs.Node), cs.Node, sname+" is called while "+w.lockName(l)+" is held")
+					}
+					// for peers that never need the lock at all, say so (StreamWriter); for DB.Subscribe the
+					// acquisitions are before the loop / after the drain, checked below
+					if sname != "badger.DB.Subscribe" {
+						_, takes := lg.acquires(sf, 0)[l]
+						r.Check(!takes, sf, "peer never takes the lock", nil, sname+" acquires "+w.lockName(l)+" (transitively): it can wait for the lock while its peer waits for it")
+					}
+				}
+			}
+			return true
+		})
+	}
+	for key := range table {
+		r.Check(seen[key], nil, "triaged site still exists: "+key, nil, "the triaged blocking site "+key+" was not found: the table is stale")
+	}
+	// DB.Subscribe: deleteSubscriber (which takes the publisher mutex) only after active=0 and drain
+	sub := w.F("badger.DB.Subscribe")
+	del := selCallName(w, "badger.publisher.deleteSubscriber")
+	drainLit := sub.LitVar("drain")
+	active := w.Field("badger.subscriber.active")
+	inactive := selPred("active.Store(0)", func(w *World, f *Fn, n ast.Node) bool {
+		fld, m, _, call := atomicOp(w, n)
+		if fld != active || m != "Store" || len(call.Args) != 1 {
+			return false
+		}
+		v, isC := w.constInt(call.Args[0])
+		return isC && v == 0
+	})
+	r.DomAll(sub, "subscriber marked inactive before it takes the publisher mutex again", del, 0, inactive, 0)
+	r.DomAll(sub, "pending batches drained before the publisher mutex is taken", del, 0, selCallFn(drainLit), 0)
+	r.DomAll(sub, "closer released before the publisher mutex is taken", del, 0, closerDone(w), 0)
+	// capacity of the subscriber channel >= 1 (a send of one batch after a drain cannot block)
+	ns := w.F("badger.publisher.newSubscriber")
+	okCap := false
+	ns.walk(func(n ast.Node) bool {
+		if call, ok := n.(*ast.CallExpr); ok && isBuiltin(w, call, "make") && len(call.Args) == 2 {
+			if _, isChan := w.TypeOf(call.Args[0]).Underlying().(*types.Chan); isChan {
+				if v, isC := w.constInt(call.Args[1]); isC && v >= 1 {
+					okCap = true
+				}
+			}
+		}
+		return true
+	})
+	r.Check(okCap, ns, "subscriber channel is buffered", nil, "the subscriber channel is unbuffered: the publisher blocks under its mutex until the subscriber receives")
+	r.Exists(n >= 4, sub, "blocking operations under locks examined", nil, "expected the publisher and StreamWriter sites")
+}
+
 func propC38(c *Check) {
+	ruleR38_6(c)
 	ruleR38_1(c)
 	ruleR38_2(c)
 	ruleR38_3(c)
